@@ -33,7 +33,7 @@ TraceInit == /\ tid \in 1..Len(Traces) /\ l = 1
              /\ flags = Rng(Tr.flags) /\ prefix = Tr.prefix
              /\ st = "disabled" /\ queue = <<>> /\ pend = <<>> /\ emit = <<>> /\ tun = <<>>
              /\ opener = "none" /\ ops = 0
-             /\ asked = {} /\ sentTo = {} /\ heard = {}
+             /\ asked = {} /\ sentTo = {} /\ heard = {} /\ judged = {}
              /\ cfgs = {flags} /\ seen = "prev"
 
 (* data: a = destination written into the DATA cell; res: rip = the address the harness' resolver answers;        *)
@@ -72,7 +72,7 @@ TraceAccepted == l <= Len(Ev) => ENABLED TraceNext
 ObsNext == /\ l <= Len(Ev) /\ l' = l + 1
            /\ flags' = IF Ev[l].k = "flags" THEN Rng(Ev[l].fl) ELSE flags
            /\ cfgs' = cfgs \cup {flags'}
-           /\ UNCHANGED <<prefix, st, queue, pend, emit, tun, opener, ops, asked, sentTo, heard, seen, tid>>
+           /\ UNCHANGED <<prefix, st, queue, pend, emit, tun, opener, ops, asked, sentTo, heard, seen, judged, tid>>
 ObsSpec == TraceInit /\ [][ObsNext]_tvars
 
 Opened(s) == s \in {"enabling0", "enabling4", "ready"}
